@@ -86,6 +86,26 @@ type Op struct {
 	Atts       []Att    `json:"atts,omitempty"`
 	// head
 	HSlot uint64 `json:"hslot,omitempty"` // the slot of the head event's block
+	// sub, att: what happens while the operation's first outside call is in flight (attester.Attest for
+	// att, the attester-duties request of Subscribe for sub): the operations of Mid are carried out, on
+	// the same controller, in the middle of that call, and if Adv is set the clock stands at slot Cur0
+	// when the operation starts and reaches Cur during the call.
+	Mid  []Op   `json:"mid,omitempty"`
+	Adv  bool   `json:"adv,omitempty"`
+	Cur0 uint64 `json:"cur0,omitempty"`
+}
+
+// linear is the controller's history in the order in which the operations take effect: what
+// completes while an operation waits for its outside call comes before that operation
+// (Model.C14_Subscriptions.linearise).
+func linear(ops []Op) []Op {
+	var out []Op
+	for _, op := range ops {
+		out = append(out, linear(op.Mid)...)
+		op.Mid = nil
+		out = append(out, op)
+	}
+	return out
 }
 
 type Input struct {
@@ -198,10 +218,21 @@ type env struct {
 	aggSubmit []*phase0.SignedAggregateAndProof
 	spe       uint64
 	target    uint64
+	// during, when set, is run once by the next outside call that takes time (Attest, AttesterDuties)
+	// before it answers: the rest of the world goes on while the controller waits.
+	during func()
+}
+
+func (e *env) meanwhile() {
+	if f := e.during; f != nil {
+		e.during = nil
+		f()
+	}
 }
 
 // attester duties provider
 func (e *env) AttesterDuties(_ context.Context, _ *api.AttesterDutiesOpts) (*api.Response[[]*apiv1.AttesterDuty], error) {
+	e.meanwhile()
 	if e.dutiesFail {
 		return nil, errors.New("scripted duties failure")
 	}
@@ -276,6 +307,7 @@ func (e *env) SubmitAggregateAttestations(_ context.Context, aggs []*phase0.Sign
 
 // attester
 func (e *env) Attest(_ context.Context, _ *attester.Duty) ([]*phase0.Attestation, error) {
+	e.meanwhile()
 	if e.attestFail {
 		return nil, errors.New("scripted attest failure")
 	}
@@ -441,7 +473,7 @@ func runCase(t *testing.T, in Input) (obs []Obs) {
 	var subEpochs []uint64
 	{
 		seen := map[uint64]bool{}
-		for _, op := range in.Ops {
+		for _, op := range linear(in.Ops) {
 			if op.Kind == "sub" && !seen[op.Epoch] {
 				seen[op.Epoch] = true
 				subEpochs = append(subEpochs, op.Epoch)
@@ -452,7 +484,7 @@ func runCase(t *testing.T, in Input) (obs []Obs) {
 
 	// every attestation data root of the case -> the id of its attestation
 	roots := map[phase0.Root]uint64{}
-	for _, op := range in.Ops {
+	for _, op := range linear(in.Ops) {
 		for _, a := range op.Atts {
 			r, err := attData(a).HashTreeRoot()
 			if err != nil {
@@ -462,24 +494,31 @@ func runCase(t *testing.T, in Input) (obs []Obs) {
 		}
 	}
 
-	for _, op := range in.Ops {
-		ct.SetSlot(op.Cur)
+	var runOp func(op Op)
+	// waitFor arranges what happens while [op]'s outside call is in flight: the operations of op.Mid
+	// run to completion (their observations come first, as in [linear]), the clock reaches op.Cur, and
+	// the answers scripted for [op] itself are put back.
+	waitFor := func(op Op, script func()) {
+		if op.Adv {
+			ct.SetSlot(op.Cur0)
+		} else {
+			ct.SetSlot(op.Cur)
+		}
+		script()
+		e.during = func() {
+			for _, m := range op.Mid {
+				runOp(m)
+			}
+			ct.SetSlot(op.Cur)
+			script()
+		}
+	}
+	runOp = func(op Op) {
 		switch op.Kind {
 		case "sub":
-			e.duties = nil
-			e.sigs = map[[2]uint64]uint64{}
 			accounts := map[phase0.ValidatorIndex]e2wtypes.Account{}
 			for _, d := range op.Duties {
-				acc := newAccount(d.Val)
-				var pk phase0.BLSPubKey
-				copy(pk[:], acc.pk.b[:])
-				e.duties = append(e.duties, &apiv1.AttesterDuty{
-					PubKey: pk, Slot: phase0.Slot(d.Slot), ValidatorIndex: phase0.ValidatorIndex(d.Val),
-					CommitteeIndex: phase0.CommitteeIndex(d.Comm), CommitteeLength: d.Len, CommitteesAtSlot: d.Cas,
-					ValidatorCommitteeIndex: d.Pos,
-				})
-				e.sigs[[2]uint64{d.Val, d.Slot}] = d.Sig
-				accounts[phase0.ValidatorIndex(d.Val)] = acc
+				accounts[phase0.ValidatorIndex(d.Val)] = newAccount(d.Val)
 			}
 			if op.NoAccounts {
 				accounts = map[phase0.ValidatorIndex]e2wtypes.Account{}
@@ -487,16 +526,38 @@ func runCase(t *testing.T, in Input) (obs []Obs) {
 				// an account without a duty in this epoch
 				accounts[phase0.ValidatorIndex(sentinel)] = newAccount(sentinel)
 			}
-			e.dutiesFail = op.DutiesFail
-			e.signFail = map[uint64]bool{}
-			for _, s := range op.SignFail {
-				e.signFail[s] = true
+			var calls [][]*apiv1.BeaconCommitteeSubscription
+			waitFor(op, func() {
+				e.duties = nil
+				e.sigs = map[[2]uint64]uint64{}
+				for _, d := range op.Duties {
+					acc := newAccount(d.Val)
+					var pk phase0.BLSPubKey
+					copy(pk[:], acc.pk.b[:])
+					e.duties = append(e.duties, &apiv1.AttesterDuty{
+						PubKey: pk, Slot: phase0.Slot(d.Slot), ValidatorIndex: phase0.ValidatorIndex(d.Val),
+						CommitteeIndex: phase0.CommitteeIndex(d.Comm), CommitteeLength: d.Len, CommitteesAtSlot: d.Cas,
+						ValidatorCommitteeIndex: d.Pos,
+					})
+					e.sigs[[2]uint64{d.Val, d.Slot}] = d.Sig
+				}
+				e.dutiesFail = op.DutiesFail
+				e.signFail = map[uint64]bool{}
+				for _, s := range op.SignFail {
+					e.signFail[s] = true
+				}
+				e.subCalls = nil
+			})
+			if op.NoAccounts {
+				// Subscribe asks nobody: nothing to wait for, the other operations simply come first
+				e.meanwhile()
 			}
-			e.subCalls = nil
 			ctrl.SubscribeToBeaconCommitteesC14(ctx, phase0.Epoch(op.Epoch), accounts)
 			synctest.Wait() // the submission goroutine has finished
+			e.meanwhile()   // (only if Subscribe never asked for the duties)
+			calls, e.subCalls = e.subCalls, nil
 			o := Obs{Kind: "sub", Calls: [][]ObsSubscription{}}
-			for _, call := range e.subCalls {
+			for _, call := range calls {
 				payload := make([]ObsSubscription, 0, len(call))
 				for _, s := range call {
 					payload = append(payload, ObsSubscription{Val: uint64(s.ValidatorIndex), Slot: uint64(s.Slot),
@@ -520,23 +581,26 @@ func runCase(t *testing.T, in Input) (obs []Obs) {
 			}
 			obs = append(obs, o)
 		case "att":
-			e.attestFail = op.AttestFail
-			e.noAcct = map[uint64]bool{}
-			for _, v := range op.NoAcct {
-				e.noAcct[v] = true
-			}
-			e.atts = nil
-			for _, a := range op.Atts {
-				bits := bitfield.NewBitlist(16)
-				bits.SetBitAt(3, true)
-				e.atts = append(e.atts, &phase0.Attestation{AggregationBits: bits, Data: attData(a)})
-			}
+			waitFor(op, func() {
+				e.attestFail = op.AttestFail
+				e.noAcct = map[uint64]bool{}
+				for _, v := range op.NoAcct {
+					e.noAcct[v] = true
+				}
+				e.atts = nil
+				for _, a := range op.Atts {
+					bits := bitfield.NewBitlist(16)
+					bits.SetBitAt(3, true)
+					e.atts = append(e.atts, &phase0.Attestation{AggregationBits: bits, Data: attData(a)})
+				}
+			})
 			duty, err := attester.NewDuty(ctx, phase0.Slot(op.DSlot), 1, nil, nil, nil, map[phase0.CommitteeIndex]uint64{})
 			if err != nil {
 				t.Fatalf("NewDuty: %v", err)
 			}
 			ctrl.AttestAndScheduleAggregate(ctx, duty)
 			synctest.Wait()
+			e.meanwhile() // (only if Attest was never called)
 			o := Obs{Kind: "att", Jobs: []ObsJob{}}
 			for _, j := range sched.Snapshot() {
 				x := ObsJob{Slot: sentinel, Comm: sentinel}
@@ -565,6 +629,7 @@ func runCase(t *testing.T, in Input) (obs []Obs) {
 			})
 			obs = append(obs, o)
 		case "head":
+			ct.SetSlot(op.Cur)
 			// the beacon node's "head" event, delivered as the events provider would: the real
 			// HandleHeadEvent (no reorganisation: the duty dependent roots never change; no fast
 			// track; no sync committee verification)
@@ -582,6 +647,9 @@ func runCase(t *testing.T, in Input) (obs []Obs) {
 		default:
 			t.Fatalf("unknown op kind %q", op.Kind)
 		}
+	}
+	for _, op := range in.Ops {
+		runOp(op)
 	}
 	return obs
 }
@@ -637,24 +705,37 @@ func dutyTerm(d Duty) string {
 }
 
 func term(id uint64, in Input, obs []Obs) string {
-	ops := make([]string, 0, len(in.Ops))
-	for _, op := range in.Ops {
+	opTerm := func(op Op) string {
 		switch op.Kind {
 		case "sub":
 			ds := make([]string, len(op.Duties))
 			for i, d := range op.Duties {
 				ds[i] = dutyTerm(d)
 			}
-			ops = append(ops, App("OSub", N(op.Epoch), N(op.Cur), Bool(op.NoAccounts), Bool(op.DutiesFail), nlist(op.SignFail), List(ds)))
+			return App("OSub", N(op.Epoch), N(op.Cur), Bool(op.NoAccounts), Bool(op.DutiesFail), nlist(op.SignFail), List(ds))
 		case "att":
 			as := make([]string, len(op.Atts))
 			for i, a := range op.Atts {
 				as[i] = App("mkAtt", N(a.Slot), N(a.Comm), N(a.Root))
 			}
-			ops = append(ops, App("OAtt", N(op.DSlot), N(op.Cur), Bool(op.AttestFail), nlist(op.NoAcct), List(as)))
-		case "head":
-			ops = append(ops, App("OHead", N(op.HSlot), N(op.Cur)))
+			return App("OAtt", N(op.DSlot), N(op.Cur), Bool(op.AttestFail), nlist(op.NoAcct), List(as))
+		default:
+			return App("OHead", N(op.HSlot), N(op.Cur))
 		}
+	}
+	// the history as it happened: an operation with the operations that completed while it was waiting
+	// for its outside call; Check.C14 puts them in the order in which they take effect ([linearise])
+	ops := make([]string, 0, len(in.Ops))
+	for _, op := range in.Ops {
+		if len(op.Mid) == 0 {
+			ops = append(ops, App("HOp", opTerm(op)))
+			continue
+		}
+		mids := []string{}
+		for _, m := range linear(op.Mid) {
+			mids = append(mids, opTerm(m))
+		}
+		ops = append(ops, App("HDuring", List(mids), opTerm(op)))
 	}
 	subTerm := func(s ObsSub) string {
 		return App("mkSub", N(s.Val), N(s.Slot), N(s.Comm), N(s.Len), N(s.Cas), N(s.Pos), Bool(s.Agg), N(s.Sig))
@@ -705,7 +786,7 @@ func term(id uint64, in Input, obs []Obs) string {
 		}
 	}
 	pr := App("mkParams", N(slotMs), N(in.DelayMs), N(in.SPE), N(in.Target))
-	return Record("c_id", N(id), "c_pr", pr, "c_ops", List(ops), "c_obs", List(os))
+	return Record("c_id", N(id), "c_pr", pr, "c_ops", App("linearise", List(ops)), "c_obs", List(os))
 }
 
 // ---------------------------------------------------------------------------------------------
@@ -722,8 +803,100 @@ func analyse(in Input) shape {
 	sh := shape{tags: map[string]bool{}}
 	latest := map[uint64]*Op{}
 	headSince := map[uint64]bool{} // epoch -> an effective head event arrived since its latest subscribe
+	// selectedOf: the attested committees of [att] that hold a selected validator according to [sub]
+	// and are not in the past at slot [cur] (the generator's steering computation, not the check's)
+	selectedOf := func(sub *Op, att *Op, cur uint64) map[[2]uint64]bool {
+		sel := map[[2]uint64]bool{}
+		if sub == nil || att.AttestFail {
+			return sel
+		}
+		for _, a := range att.Atts {
+			if a.Slot < cur {
+				continue
+			}
+			for _, d := range sub.Duties {
+				if d.Slot == a.Slot && d.Comm == a.Comm && in.Target > 0 && genSelected(d.Sig, d.Len, in.Target) {
+					sel[[2]uint64{a.Slot, a.Comm}] = true
+				}
+			}
+		}
+		return sel
+	}
+	// the operations in the order in which they take effect, each with the operation during whose
+	// outside call it completed (nil: on its own)
+	type placed struct {
+		op     *Op
+		during *Op
+	}
+	var seq []placed
 	for i := range in.Ops {
-		op := &in.Ops[i]
+		top := &in.Ops[i]
+		mids := linear(top.Mid)
+		for k := range mids {
+			seq = append(seq, placed{&mids[k], top})
+		}
+		seq = append(seq, placed{top, nil})
+	}
+	var infoBefore *Op // the information of the attest's epoch when the attest started (before its Mid)
+	for i, pl := range seq {
+		op := pl.op
+		if pl.during != nil {
+			sh.tags[op.Kind+"-during-"+pl.during.Kind] = true
+			if i == 0 || seq[i-1].during != pl.during {
+				// first operation of this waiting period: remember what the waiting attest would have
+				// found had it looked before calling Attest
+				infoBefore = nil
+				if pl.during.Kind == "att" {
+					infoBefore = latest[pl.during.DSlot/in.SPE]
+				}
+			}
+		}
+		if op.Adv && op.Cur0 != op.Cur {
+			sh.tags["slot-advances-during-"+op.Kind] = true
+		}
+		if op.Kind == "att" && len(op.Mid) > 0 {
+			after := latest[op.DSlot/in.SPE]
+			selB, selA := selectedOf(infoBefore, op, op.Cur), selectedOf(after, op, op.Cur)
+			switch {
+			case infoBefore == nil && after != nil:
+				sh.tags["info-lands-during-attest"] = true
+			case infoBefore != after:
+				sh.tags["info-replaced-during-attest"] = true
+			}
+			for k := range selA {
+				if !selB[k] {
+					sh.tags["job-needs-info-stored-during-attest"] = true
+				} else if infoBefore != after {
+					sh.tags["job-details-from-info-stored-during-attest"] = true
+				}
+			}
+			for k := range selB {
+				if !selA[k] {
+					sh.tags["info-of-before-attest-would-schedule-other-job"] = true
+				}
+			}
+		}
+		if op.Kind == "att" && op.Adv && op.Cur0 != op.Cur {
+			sub := latest[op.DSlot/in.SPE]
+			if len(selectedOf(sub, op, op.Cur0)) != len(selectedOf(sub, op, op.Cur)) {
+				sh.tags["aggregation-becomes-past-during-attest"] = true
+			}
+		}
+		if op.Kind == "sub" && op.Adv && op.Cur0 != op.Cur && !op.NoAccounts && !op.DutiesFail {
+			lo, hi := min(op.Cur0, op.Cur), max(op.Cur0, op.Cur)
+			for _, d := range op.Duties {
+				if lo < d.Slot && d.Slot <= hi {
+					sh.tags["duty-becomes-current-during-subscribe"] = true
+				}
+			}
+		}
+		if op.Kind == "att" && pl.during != nil && pl.during.Kind == "sub" && pl.during.Epoch == op.DSlot/in.SPE {
+			if latest[op.DSlot/in.SPE] != nil {
+				sh.tags["attest-during-resubscribe"] = true
+			} else {
+				sh.tags["attest-during-first-subscribe"] = true
+			}
+		}
 		switch op.Kind {
 		case "head":
 			sh.tags["head"] = true
@@ -1190,11 +1363,71 @@ func gen(r *Rand, trace bool) Input {
 			// a head event on its own, anywhere around the epochs in play
 			in.Ops = append(in.Ops, genHead(r, &in, epoch, nil))
 		}
+		// replace records an effective subscribe in [subs] (the latest one of an epoch counts)
+		replace := func(op Op) {
+			if op.DutiesFail {
+				return
+			}
+			if op.NoAccounts {
+				op.Duties = nil
+			}
+			op.Mid = nil
+			kept := subs[:0:0]
+			for _, s := range subs {
+				if s.Epoch != op.Epoch {
+					kept = append(kept, s)
+				}
+			}
+			subs = append(kept, op)
+		}
+		startup := i == 0 && r.Chance(1, 8) // nothing is known yet when the first attestation job starts
+		if startup || (!wantSub && r.Chance(1, 6)) {
+			// The attestation job and a subscribe of its epoch run side by side (start-up part-way through
+			// a slot: New launches both; a reorganisation early in a slot: the attestation jobs are
+			// re-created and the epoch is re-subscribed): the subscribe completes while attester.Attest
+			// is in flight.  The attestations are those of the duties the subscribe reports.
+			ep := epoch
+			if len(subs) > 0 && r.Chance(1, 2) {
+				ep = subs[r.Intn(len(subs))].Epoch // a refresh of an epoch already subscribed
+			}
+			msub := genSub(r, &in, ep)
+			msub.DutiesFail = false
+			if r.Chance(9, 10) {
+				msub.NoAccounts = false
+			}
+			eff := msub
+			if eff.NoAccounts {
+				eff.Duties = nil
+			}
+			att := genAtt(r, &in, []Op{eff}, &rootSeq)
+			msub.Cur = att.Cur
+			if r.Chance(1, 4) { // a head event arrives as well, before or after the subscribe completes
+				h := genHead(r, &in, epoch, &att)
+				if r.Bool() {
+					att.Mid = append(att.Mid, h, msub)
+				} else {
+					att.Mid = append(att.Mid, msub, h)
+				}
+			} else {
+				att.Mid = append(att.Mid, msub)
+			}
+			in.Ops = append(in.Ops, att)
+			replace(msub)
+			continue
+		}
 		if !wantSub {
 			// the usual order of a slot: the head event of the slot's block, then the attestation
 			att := genAtt(r, &in, subs, &rootSeq)
-			if r.Chance(2, 5) {
+			switch k := r.Intn(20); {
+			case k < 7:
 				in.Ops = append(in.Ops, genHead(r, &in, epoch, &att))
+			case k < 9: // the block arrives while the attestation is being made
+				att.Mid = append(att.Mid, genHead(r, &in, epoch, &att))
+			}
+			if r.Chance(1, 10) {
+				// Attest takes until the next slot has begun
+				att.Adv, att.Cur0 = true, att.Cur
+				att.Cur++
 			}
 			in.Ops = append(in.Ops, att)
 			continue
@@ -1205,20 +1438,22 @@ func gen(r *Rand, trace bool) Input {
 				ep = epoch + 1
 			}
 			op := genSub(r, &in, ep)
-			in.Ops = append(in.Ops, op)
-			if !op.DutiesFail {
-				if op.NoAccounts {
-					op.Duties = nil
-				}
-				// the latest effective subscription of an epoch replaces the earlier one
-				kept := subs[:0]
-				for _, s := range subs {
-					if s.Epoch != op.Epoch {
-						kept = append(kept, s)
-					}
-				}
-				subs = append(kept, op)
+			if !op.NoAccounts && r.Chance(1, 10) {
+				// the duties request and the signing take until the next slot has begun
+				op.Adv, op.Cur0 = true, op.Cur
+				op.Cur++
 			}
+			if !op.NoAccounts && len(subs) > 0 && r.Chance(1, 8) {
+				// an attestation job (of what is known so far) runs while this subscribe is waiting for the
+				// duties; sometimes a head event too
+				att := genAtt(r, &in, subs, &rootSeq)
+				if r.Chance(1, 3) {
+					op.Mid = append(op.Mid, genHead(r, &in, epoch, &att))
+				}
+				op.Mid = append(op.Mid, att)
+			}
+			in.Ops = append(in.Ops, op)
+			replace(op)
 		}
 	}
 	return in
@@ -1230,7 +1465,8 @@ func TestC14(t *testing.T) {
 	deadlock.Opts.Disable = true
 	zerologger.Logger = zerolog.New(io.Discard)
 	col := NewCollector("C14", "Check.C14",
-		"histories of 2-10 operations (subscribe an epoch at a current slot; attest a slot; head event) over 0-10 validators; "+
+		"histories of 2-10 operations (subscribe an epoch at a current slot; attest a slot; head event; some of them "+
+			"completing while an attest is waiting for attester.Attest or a subscribe for the duties) over 0-10 validators; "+
 			"non-trivial = a subscribe with at least one duty after the current slot, or an attest with at least one "+
 			"attested committee holding a selected aggregator, or a head event while subscription information is held; "+
 			"distinct by full input text")
@@ -1259,7 +1495,7 @@ func TestC14(t *testing.T) {
 			tags = append(tags, tg)
 		}
 		sort.Strings(tags)
-		for _, op := range in.Ops {
+		for _, op := range linear(in.Ops) {
 			col.Count("op:" + op.Kind)
 			switch op.Kind {
 			case "sub":
